@@ -118,7 +118,7 @@ def suite_limits(tier):
     cases = []
     fe = 0
     layouts = []
-    reps = 1 if tier == "quick" else 4
+    reps = 1 if tier == "quick" else 6
     for _ in range(reps):
         for size, start in ((2000, 0), (2000, 1), (125, 100), (9, 2), (2100, 65530 - 2100), (1, 0), (2, 65530)):
             for zero in (False, True):
@@ -149,7 +149,7 @@ def suite_bytecounts(tier):
     kept clear of the FC15 defect region (quantity <= 8 * byte count)"""
     r = common.rng("C05.bytecounts")
     cases = []
-    n = 40 if tier == "quick" else 600
+    n = 40 if tier == "quick" else 1500
     for i in range(n):
         L = X.gen_layout(r, shared=r.random() < 0.2, size=r.choice([9, 20, 40]), sparse=False, start=r.choice([0, 1, 2]))
         ws = []
@@ -266,7 +266,7 @@ def sweep_in_region(desc):
 def suite_faults(tier):
     r = common.rng("C05.faults")
     cases = []
-    n = 50 if tier == "quick" else 800
+    n = 50 if tier == "quick" else 1500
     for i in range(n):
         L = X.gen_layout(r, size=r.choice([2, 9, 20]))
         fc = X.DATA_FCS[i % len(X.DATA_FCS)]
